@@ -585,6 +585,7 @@ def IfHead.clearExtra : IfHead ε → IfHead ε
   | .ifE c => .ifE c
   | .ifdef n _ => .ifdef n false
   | .ifndef n _ => .ifndef n false
+  | .noName => .noName
 
 def Plain.clearExtra : Plain β → Plain β
   | .undef n _ => .undef n false
@@ -711,6 +712,7 @@ theorem procLine_congr (ev₁ ev₂ : ε → Defs β → Except Diag Bool) (l : 
     | ifE c => simp only [procLine, evalHead, h c rfl]
     | ifdef n x => rfl
     | ifndef n x => rfl
+    | noName => rfl
   | part ph =>
     cases ph with
     | els x => rfl
